@@ -76,5 +76,17 @@ PROPS["C17"] = {
     "replay_help": "case.sql / case.expr is the statement, case.wire the JSON the implementation produced; correspondence_code 1 = the model's marshal differs from the wire JSON or the model's decoder rejects it; direct violations (oracle_code 900) = the Go round trip returned a different statement, with both renderings",
 }
 
+PROPS["C16"] = {
+    "harness": "c16",
+    "props_files": ["C16/Props.v"],
+    "n": {"quick": 400, "thorough": 8000},
+    "level_text": "Theorems (Coq, no axioms): the sort + two-pointer de-duplication yields a strictly key-sorted tag list with exactly the keys sent and, per key, one of the values sent; it is invariant under any permutation of the tags when repeated keys carry equal values; routing by (shard, family time) is a partition of the batch whose group key depends on the row alone; the eviction predicate is exactly 'outside the write window'. Tied to the code by sending generated metrics through the real protobuf, flat and line-protocol ingestion paths and comparing the stored rows, the validation verdict (error kind) and the shard/family groups of whole batches with the model; tags hash and jump hash are recomputed independently.",
+    "level_note": "Trusted: xxhash and jump hash are library functions (abstract in the model; the harness checks hash = xxhash(concat(stored tags)) and shard = jump(hash) on every row), the three wire parsers are validated not modelled, family time comes from the C13 model.",
+    "rule": "metrics with 0-7 tags from pools with shared prefixes, unicode, '=' and ',' inside values, repeated keys with equal or different values, enriched tags, every simple field type, histograms, and a malformed stream (12 kinds: empty/too long names, empty tag parts, limits, NaN/Inf, bad histograms); batches of 1-40 rows over 1-9 shards with timestamps in one family, across hour/day boundaries and outside the write window; non-trivial = tags out of order or a repeated key (conversion), >= 2 shards and >= 2 families hit and >= 1 evicted row (batch); distinct = different JSON",
+    "trusted": ["modelled abstractly: cespare/xxhash, go-jump-consistent-hash (results recomputed by the harness with the same libraries), protobuf/flatbuffers codecs, lindb/common RowBuilder (the flat and line-protocol paths build rows with it)"],
+    "assumptions": ["tag-order invariance is claimed for tag lists whose repeated keys carry equal values (for different values under one key a permutation changes which one is last)", "sort.Sort is not stable for more than 12 elements: for a repeated key with different values the oracle demands one of the sent values, not a particular one"],
+    "replay_help": "case.kind convert-*: the metric sent; correspondence_code 1 = stored tag list differs from canon(sent) or the validation verdict differs; oracle_code 1 = stored tags not strictly sorted / a key missing / a value never sent; oracle_code 900 = a direct check failed (name, namespace, timestamp, field, hash of stored tags, tag-order invariance), see observed; case.kind route: rows with (id, ts, hash, shard), shard count, interval, window",
+}
+
 for _pid in PROPS:
     NOT_APPLICABLE.pop(_pid, None)
